@@ -16,7 +16,8 @@ L1, over the schema table regenerated from the repository (`Gen/C08.lean`), by `
 L2, for every value (no bound):
 * `proto_roundtrip` — ProtoUnmarshal ∘ ProtoMarshal = the explicit projection `lossyProto`;
   `proto_property_partial` — which the Spec's comparison accepts when the pin's mode agrees with its
-  depth; `proto_property_full` (no such hypothesis) and `proto_property_full_fails` (finding K13).
+  depth; `proto_property_full` (no such hypotheses), `proto_property_full_fails` (finding K13) and
+  `proto_property_full_fails_undef_reference` (finding K38).
 * `query_roundtrip`, `query_property`.
 * `status_string_roundtrip` (every filter of known statuses; in full since the repair of K14), `status_named_roundtrip`, `mode_string_roundtrip`, `type_string_roundtrip`.
 * `opts_equals_refl/symm/trans`, `pin_equals_refl/symm/trans` — Equals is an equivalence on values held
@@ -74,11 +75,13 @@ theorem proto_roundtrip (p : Pin) (h : wfProto p = true) : protoRoundtrip p = .o
 def proto_property_full : Prop :=
   ∀ p : Pin, wfProto p = true → ∃ q, protoRoundtrip p = .ok q ∧ pinSame .proto p q = true
 
-/-- … proved for pins whose mode is the one their depth implies (what `PinWithOpts` establishes) -/
-theorem proto_property_partial (p : Pin) (h : wfProto p = true) (hm : p.opts.mode = toPinMode p.maxDepth) :
+/-- … proved for pins whose mode is the one their depth implies (what `PinWithOpts` establishes) and whose
+    reference is not a non-nil pointer to cid.Undef -/
+theorem proto_property_partial (p : Pin) (h : wfProto p = true) (hm : p.opts.mode = toPinMode p.maxDepth)
+    (hr : p.reference ≠ some undefCid) :
     ∃ q, protoRoundtrip p = .ok q ∧ pinSame .proto p q = true := by
   refine ⟨lossyProto p, proto_roundtrip p h, ?_⟩
-  simp [pinSame, optsSame, lossyProto, expiryKey_trunc, hm]
+  simp [pinSame, optsSame, lossyProto, expiryKey_trunc, hm, hr]
 
 /-- a cluster-DAG pin as the sharding adder builds it: mode recursive, depth 0 -/
 def clusterDagPin : Pin :=
@@ -96,6 +99,19 @@ theorem proto_property_full_fails : ¬ proto_property_full := by
   subst hq
   revert hs
   decide
+
+/-- the first shard pin of a sharded add as shard.go built it before 9d8b946: a reference pointing to cid.Undef -/
+def firstShardPin : Pin :=
+  { opts := { rmin := 1, rmax := 1, name := "~x", mode := 0, shardSize := 0, userAllocs := [], expireAt := Time.zero,
+              metadata := [], pinUpdate := none, origins := [] },
+    cid := some "c0", type := 16, allocs := ["p1"], maxDepth := 1, reference := some undefCid }
+
+/-- … and also for a pin whose mode agrees with its depth but whose reference points to cid.Undef (finding K38):
+    the stored form reads it back as a nil reference -/
+theorem proto_property_full_fails_undef_reference :
+    wfProto firstShardPin = true ∧ firstShardPin.opts.mode = toPinMode firstShardPin.maxDepth ∧
+    protoRoundtrip firstShardPin = .ok { firstShardPin with reference := none } ∧
+    pinSame .proto firstShardPin { firstShardPin with reference := none } = false := by decide
 
 example : wfProto clusterDagPin = true ∧ protoRoundtrip clusterDagPin = .ok { clusterDagPin with opts := { clusterDagPin.opts with mode := 1 } } := by
   decide
@@ -241,9 +257,13 @@ theorem equals_is_equivalence_full_fails : ¬ equals_is_equivalence_full := by
 theorem tagged_field_identity (js : Bool) (f : Field) (tok : String)
     (hd : decodable js f.ty = true)
     (hz : (elemToks f.ty tok).any (zeroRejected js (leafName (peel f.ty))) = false)
-    (hs : leafName (peel f.ty) ≠ "api.TrackerStatus") (hm : leafName (peel f.ty) ≠ "api.PinMode") :
+    (hs : leafName (peel f.ty) ≠ "api.TrackerStatus") (hm : leafName (peel f.ty) ≠ "api.PinMode")
+    (hp : tok ≠ undefCid ∨ isPtr f.ty = false) :
     predictField js f tok = some tok := by
-  unfold predictField
-  simp [hd, hz, hs, hm]
+  unfold predictField predictFieldE
+  rcases hp with hp | hp
+  · have : (tok == "c-") = false := by simpa [undefCid] using hp
+    simp [hd, hz, hs, hm, this, Except.toOption]
+  · simp [hd, hz, hs, hm, hp, Except.toOption]
 
 end CV.C08.Props
